@@ -20,11 +20,11 @@ PENDING = {
 }
 CHECKS = {
  "C15": dict(cat="fault_enumeration", ref="5.1",
-   text="Per seeded scenario (budget x migration command x TTY/peer seams) the golden run's file-system effect trace is swept completely: crash before every effect with the in-flight file empty/partial/full, one OSError of every legal errno at every effect, KeyboardInterrupt at every effect (thorough: depth 2, a crash during the recovery run). After each, only the disk survives; a fresh simulated `tally up` must classify as before, directly or after one fault-free re-run, no user content may be lost, and never 'all Unknown while the rules exist'. Enumeration over the real code's recorded trace is the right level for a property quantified over 'every prefix' and 'each single step'; scenarios are sampled by seed; rare world variants (symbolic links for the config directory / settings.yaml / the CSV, leftover files of an earlier interrupted run, settings naming the CSV or a comments-only .rules file, odd output_dir) are stratified over the run index. Read faults on every file the command read, a disk that stays full / read-only, a path that stays locked, and a second file system for $TMPDIR are part of the sweep. Every run additionally draws a machine environment from the seed (locale encoding used by text opens that name none; one run in eight under an interpreter started with -O), and a quarter as many further runs are made by a second harness under another PYTHONHASHSEED; all of it is recorded in the replay file.",
+   text="Per seeded scenario (budget x migration command x TTY/peer seams) the golden run's file-system effect trace is swept completely: crash before every effect with the in-flight file empty/partial/full, one OSError of every legal errno at every effect, KeyboardInterrupt at every effect (thorough: depth 2, a crash during the recovery run). After each, only the disk survives; a fresh simulated `tally up` must classify as before, directly or after one fault-free re-run, no user content may be lost, and never 'all Unknown while the rules exist'. Enumeration over the real code's recorded trace is the right level for a property quantified over 'every prefix' and 'each single step'; scenarios are sampled by seed; rare world variants (symbolic links for the config directory / settings.yaml / the CSV, leftover files of an earlier interrupted run, settings naming the CSV or a comments-only .rules file, odd output_dir) are stratified over the run index. Read faults on every file the command read, a disk that stays full / read-only, a path that stays locked, and a second file system for $TMPDIR are part of the sweep. Every run additionally draws a machine environment from the seed (locale encoding used by text opens that name none; one run in eight under an interpreter started with -O), and a quarter as many further runs are made by a second harness under another PYTHONHASHSEED; all of it is recorded in the replay file. Short writes: every fd-level os.write of the trace also stores only half of its buffer and says so, the disk full from then on (fired only where the code under test writes through raw file descriptors).",
    note="process-kill durability model (ordered effects, any prefix of the in-flight file); Python-level seam (open/os/shutil/pathlib) audited against before/after tree snapshots on every process; classification observed through `tally up --format json -v`; GitHub peer, TTY user and clock are stubs",
    tech="deterministic simulation: forked simulated processes under an interposed file system, exhaustive crash/OSError/interrupt sweep of the recorded effect trace, seeded scenarios"),
  "C20": dict(cat="exploration", ref="5.2",
-   text="Seeded histories of 3-8 real tally commands (up/explain/discover/diag/inspect/init/up --migrate in all their variants, config found by argument, cwd or TALLY_CONFIG, no TTY or a TTY that declines) over seeded budgets; after every simulated process a frame condition is evaluated over complete before/after tree snapshots AND the audited effect log (so write-then-restore is also seen). A quarter of the histories (thorough: half) carry one crash / read fault / OSError inside a read-only command, and in half of them every effect of every `init` step is re-run under OSError / crash / disk-stays-full from the same starting tree, with the same oracle. Stratified histories cover budgets with one settings file per year. Every run additionally draws a machine environment from the seed (locale encoding used by text opens that name none; one run in eight under an interpreter started with -O), and a quarter as many further runs are made by a second harness under another PYTHONHASHSEED; all of it is recorded in the replay file.",
+   text="Seeded histories of 3-8 real tally commands (up/explain/discover/diag/inspect/init/up --migrate in all their variants, config found by argument, cwd or TALLY_CONFIG, no TTY or a TTY that declines) over seeded budgets; after every simulated process a frame condition is evaluated over complete before/after tree snapshots AND the audited effect log (so write-then-restore is also seen). A quarter of the histories (thorough: half) carry one crash / read fault / OSError inside a read-only command, and in half of them every effect of every `init` step is re-run under OSError / crash / disk-stays-full from the same starting tree, with the same oracle. Stratified histories cover budgets with one settings file per year. Every run additionally draws a machine environment from the seed (locale encoding used by text opens that name none; one run in eight under an interpreter started with -O), and a quarter as many further runs are made by a second harness under another PYTHONHASHSEED; all of it is recorded in the replay file. The init sweep also shortens every fd-level write and makes every directory the golden run listed unlistable (EACCES, EIO).",
    note="same seam and audit as C15; output location derived from the model the settings were rendered from; generated settings never point output at a user file",
    tech="deterministic simulation: seeded command histories over an interposed file system, frame-condition oracle over snapshots + effect log, fault injection in read-only commands"),
  "C07": dict(cat="exploration", ref="5.3",
@@ -32,7 +32,7 @@ CHECKS = {
    note="the reference is tally itself in a fresh process (literal 'fresh process' of the property); pools are built to collide (case-only, whitespace-only, quote-only differences; shared rule names)",
    tech="deterministic simulation: seeded operation histories in a long-lived process vs fresh-process reference, read-fault injection on loads"),
  "C11": dict(cat="exploration", ref="5.4",
-   text="Seeded budgets rendered from a model; `tally up` (HTML and JSON) runs as a simulated process fault-free and then once per (source, fault kind: absent, EACCES, EISDIR, EIO mid-read, invalid UTF-8). Oracle: the report equals the model over the readable sources, the failing source is named, all-sources-failing exits non-zero; fault-free the report equals the model (wiring clause, by-product). Further fault kinds: content the csv module refuses, a transient read error (once), stray non-UTF-8 bytes judged decoding-agnostically, and the same on the supplemental source with an either-or oracle (the rules had all of its rows or none). Budgets contain symbolic links, run with TALLY_CONFIG naming another budget, have long statements, twin rows, two sources over one file, views whose variables shadow the file's. Every run additionally draws a machine environment from the seed (locale encoding used by text opens that name none; one run in eight under an interpreter started with -O), and a quarter as many further runs are made by a second harness under another PYTHONHASHSEED; all of it is recorded in the replay file.",
+   text="Seeded budgets rendered from a model; `tally up` (HTML and JSON) runs as a simulated process fault-free and then once per (source, fault kind: absent, EACCES, EISDIR, EIO mid-read, invalid UTF-8). Oracle: the report equals the model over the readable sources, the failing source is named, all-sources-failing exits non-zero; fault-free the report equals the model (wiring clause, by-product). Further fault kinds: content the csv module refuses, a transient read error (once), stray non-UTF-8 bytes judged decoding-agnostically, and the same on the supplemental source with an either-or oracle (the rules had all of its rows or none). Budgets contain symbolic links, run with TALLY_CONFIG naming another budget, have long statements, twin rows, two sources over one file, views whose variables shadow the file's. Every run additionally draws a machine environment from the seed (locale encoding used by text opens that name none; one run in eight under an interpreter started with -O), and a quarter as many further runs are made by a second harness under another PYTHONHASHSEED; all of it is recorded in the replay file. Budgets with several accounts pin a rule to the account that is read last (state a failing source leaves in the process shows there); one run in five has a stdout that cannot encode everything (ascii / latin-1, strict), one run in eleven a Dutch LC_TIME in the calling shell; statements carry a damaged line now and then and currency cells with grouping separators in odd places; a command that stops with a traceback over its output streams is counted, not judged.",
    note="classification in the model is obtained from the real engine with explicit arguments in a fresh process (C01/C02/C09 trusted here); generated strings avoid C12/C08 territory",
    tech="deterministic simulation: per-source read-fault injection under `tally up`, model-based report oracle"),
  "C05": dict(cat="exploration", ref="5.5",
@@ -40,11 +40,11 @@ CHECKS = {
    note="parse_generic_csv in a forked process per case; the generator stays inside what the statement fixes (no BOM, balanced quotes)",
    tech="deterministic simulation: corrupt-at-rest and torn-file fault injection against a row-table model"),
  "C08": dict(cat="exploration", ref="5.6",
-   text="ExpressionError injected at each evaluation call site for a chosen (expression, item) pair, plus a pool of naturally failing expressions whose failure is determined by tally's own evaluator; oracle: the call returns normally, nothing is lost, and the item's result equals the fault-free result with the failing rule/tag/field/view removed for it. Natural failures are stratified over (site x what the evaluation raises underneath), including syntax outside the language at the one site where it passes the loader; one case in ten repeats its items to 140-300 rows with sampled rows re-read as one-row statements in fresh processes; `tally up` runs on rules and legacy budgets with a supplemental source that is sometimes unloadable, on pinned days including both leap days. Every run additionally draws a machine environment from the seed (locale encoding used by text opens that name none; one run in eight under an interpreter started with -O), and a quarter as many further runs are made by a second harness under another PYTHONHASHSEED; all of it is recorded in the replay file.",
+   text="ExpressionError injected at each evaluation call site for a chosen (expression, item) pair, plus a pool of naturally failing expressions whose failure is determined by tally's own evaluator; oracle: the call returns normally, nothing is lost, and the item's result equals the fault-free result with the failing rule/tag/field/view removed for it. Natural failures are stratified over (site x what the evaluation raises underneath), including syntax outside the language at the one site where it passes the loader; one case in ten repeats its items to 140-300 rows with sampled rows re-read as one-row statements in fresh processes; `tally up` runs on rules and legacy budgets with a supplemental source that is sometimes unloadable, on pinned days including both leap days. Every run additionally draws a machine environment from the seed (locale encoding used by text opens that name none; one run in eight under an interpreter started with -O), and a quarter as many further runs are made by a second harness under another PYTHONHASHSEED; all of it is recorded in the replay file. Runs under python -O (one in seven, by run index) walk through the value expressions at the sites that keep the value; whether an expression can be evaluated at all is asked of an ordinary interpreter, never of the one under test. The command budget is spread over two statements.",
    note="only ExpressionError is injected (the one exception every call site is contractually prepared for); natural failures are determined, not assumed",
    tech="deterministic simulation: evaluation-boundary fault injection (buggify) + containment oracle by rule deletion"),
  "C17": dict(cat="exploration", ref="5.7",
-   text="merchants.rules / views.rules rendered from a structural model under seeded layouts; single-point corruptions of the enumerated classes and torn tails at line boundaries must be rejected naming the line; at command level (tally up / diag, with EACCES/EIO/bad-UTF-8 read faults as well) the loader's failure must be reported instead of running with no rules; uncorrupted renderings parse to the model (by-product), including property values with characters that are special in YAML / INI / shells / CSV. A file every read of which fails must not be accepted by the loader; damaged files are also reached through symbolic links whose target has another name; explain and discover are observers too. Every run additionally draws a machine environment from the seed (locale encoding used by text opens that name none; one run in eight under an interpreter started with -O), and a quarter as many further runs are made by a second harness under another PYTHONHASHSEED; all of it is recorded in the replay file.",
+   text="merchants.rules / views.rules rendered from a structural model under seeded layouts; single-point corruptions of the enumerated classes and torn tails at line boundaries must be rejected naming the line; at command level (tally up / diag, with EACCES/EIO/bad-UTF-8 read faults as well) the loader's failure must be reported instead of running with no rules; uncorrupted renderings parse to the model (by-product), including property values with characters that are special in YAML / INI / shells / CSV. A file every read of which fails must not be accepted by the loader; damaged files are also reached through symbolic links whose target has another name; explain and discover are observers too. Every run additionally draws a machine environment from the seed (locale encoding used by text opens that name none; one run in eight under an interpreter started with -O), and a quarter as many further runs are made by a second harness under another PYTHONHASHSEED; all of it is recorded in the replay file. Each observing command is run again with nobody reading stderr: it may stop over that or say it on stdout, it may not end successfully without having reported the file.",
    note="corruption classes restricted to those the statement enumerates; raw byte flips that yield a different valid file are outside the oracle",
    tech="deterministic simulation: corrupt-at-rest, torn-tail and read-fault injection on stored rule files, loader + command-level observers"),
 }
